@@ -246,6 +246,43 @@ def write_replay(pid, kind, payload):
     return path
 
 
+def impl_coverage(pid, n, seed, anchors, timeout=1800):
+    """Statement coverage of the property's anchored files of /repo by this stream (thorough tier only): the harness is
+    rebuilt with -cover, the same stream is run once more, and `go tool covdata` reports per function.  What the
+    correspondence and the oracles cannot reach cannot be judged by them; this says how much that is."""
+    covbin = os.path.join(BUILD, "hpverif-cover")
+    covdir = os.path.join(BUILD, "covdata-" + pid)
+    try:
+        shutil.rmtree(covdir, ignore_errors=True)
+        os.makedirs(covdir, exist_ok=True)
+        with Lock("harness"):
+            rc, out = run(["go", "build", "-tags", "verif", "-cover", "-coverpkg=github.com/hack-pad/hackpadfs/...,hpverif",
+                           "-o", covbin, "."], 900, cwd=HARNESS, env=GOENV)
+        if rc != 0:
+            return dict(error="cover build failed: " + out[-300:])
+        env = dict(GOENV, VERIF_SEED=str(seed), VERIF_TIER="quick", VERIF_HARNESS_DIR=HARNESS, GOCOVERDIR=covdir)
+        subprocess.run([covbin, pid, str(n)], env=env, stdout=subprocess.DEVNULL, stderr=subprocess.DEVNULL, timeout=timeout)
+        txt = os.path.join(covdir, "cov.txt")
+        rc, out = run(["go", "tool", "covdata", "textfmt", "-i=" + covdir, "-o", txt], 300, cwd=HARNESS, env=GOENV)
+        if rc != 0 or not os.path.exists(txt):
+            return dict(error="covdata failed: " + out[-300:])
+        per = {}
+        for line in open(txt):
+            m = re.match(r"github.com/hack-pad/hackpadfs/(\S+?):\d+\.\d+,\d+\.\d+ (\d+) (\d+)$", line.strip())
+            if not m:
+                continue
+            f, nst, cnt = m.group(1), int(m.group(2)), int(m.group(3))
+            if f not in anchors:
+                continue
+            tot, hit = per.get(f, (0, 0))
+            per[f] = (tot + nst, hit + (nst if cnt > 0 else 0))
+        return {f: dict(statements=t, covered=h, percent=round(100.0 * h / t, 1) if t else 0.0) for f, (t, h) in sorted(per.items())}
+    except Exception as e:  # measurement only: never the reason a check fails
+        return dict(error=str(e))
+    finally:
+        shutil.rmtree(covdir, ignore_errors=True)
+
+
 def write_evidence(pid, tier, seed, coverage, assumptions, wall, violations):
     evdir = os.environ.get("VERIF_EVIDENCE_DIR") or os.path.join(ROOT, "evidence")
     os.makedirs(evdir, exist_ok=True)
